@@ -109,8 +109,10 @@ impl NodeHandle {
             Self(child, self.1).dispose();
         }
 
-        // Clear context values.
-        self.1.nodes.borrow_mut()[self.0].context.clear();
+        // Clear context values. A cleanup callback may have disposed this node already.
+        if let Some(this) = self.1.nodes.borrow_mut().get_mut(self.0) {
+            this.context.clear();
+        }
     }
 
     /// Run a closure under this reactive node.
